@@ -53,19 +53,20 @@ def spec_checks(ctx, q):
                                            "HeaderOnce, as required (known finding X04-writeheader-applied-again)"})
 
 
-def load_cases_by_trace(traces):
-    """[(case record, [event records])] of all traces"""
-    out = []
+def iter_cases(traces):
+    """yields (case record, [event records]) of all traces, one case at a time (thorough: millions of lines)"""
     for t in traces:
         cur = None
         for line in open(t):
             r = json.loads(line)
             if r["ev"] == "Case":
+                if cur is not None:
+                    yield cur
                 cur = (r, [])
-                out.append(cur)
             elif cur is not None:
                 cur[1].append(r)
-    return out
+        if cur is not None:
+            yield cur
 
 
 def harness_sanity(recs):
@@ -115,8 +116,7 @@ def run(ctx):
     nrun = sum(lib.count_cases(t) for t in traces)
     if nrun != n:
         raise lib.Infra("driver ran %d cases of %d" % (nrun, n))
-    recs = load_cases_by_trace(traces)
-    harness_sanity(recs)
+    harness_sanity(iter_cases(traces))
 
     # 1. net/http's reference implementation must be a behaviour of the specification, completely;  2. the adaptor
     # (one validate call: lib names the TLC directories by position in the list)
@@ -136,7 +136,7 @@ def run(ctx):
         return
     rejected = {(t, ln) for t, b in res for ln in b}
     self_tests(ctx, traces, res)
-    evidence(ctx, recs, n, nref, len(rejected), q)
+    evidence(ctx, iter_cases(traces), n, nref, len(rejected), q)
 
 
 def clean_cases(traces, res):
@@ -290,29 +290,29 @@ def nontrivial(c, evs):
 
 
 def evidence(ctx, recs, n, nref, nrej, q):
-    per_kind, per_ev, nt, seen = {}, {}, 0, set()
-    sample_trace = None
+    per_kind, per_ev, nt, seen, nrand = {}, {}, 0, set(), 0
+    sample_trace, samples = None, {}
     for c, evs in recs:
-        key = (c["kind"], c.get("fam"))
-        per_kind["%s/%s" % key] = per_kind.get("%s/%s" % key, 0) + 1
+        key = "%s/%s" % (c["kind"], c.get("fam"))
+        per_kind[key] = per_kind.get(key, 0) + 1
+        nrand += 1 if c.get("fam") == "rand" else 0
         for e in evs:
             per_ev[e["ev"]] = per_ev.get(e["ev"], 0) + 1
-        sig = json.dumps({k: v for k, v in c.items() if k not in ("id", "ev", "fam")}, sort_keys=True)
-        if nontrivial(c, evs) and sig not in seen:
-            seen.add(sig)
-            nt += 1
+        if nontrivial(c, evs):
+            sig = hash(json.dumps({k: v for k, v in c.items() if k not in ("id", "ev", "fam")}, sort_keys=True))
+            if sig not in seen:
+                seen.add(sig)
+                nt += 1
+        if per_kind[key] == 7:
+            samples[key] = {k: v for k, v in c.items() if k != "ev"}
         if sample_trace is None and c["kind"] == "rw" and len(c["ops"]) == 4 and c["pre"] and not c["sig"]["wh2"] \
                 and c["sig"]["ck2"] == "-" and [o["op"] for o in c["ops"]].count("WriteHeader") == 1 and "Write" in [o["op"] for o in c["ops"]]:
             sample_trace = [c] + evs
-    by_kind = {}
-    for c, evs in recs:
-        by_kind.setdefault(c["kind"], []).append(c)
     ctx.cov.update({
         "evaluations": n, "distinct_nontrivial": nt, "exhaustive": False,
         "traces_validated_against_impl": n, "reference_traces_validated": nref, "events_per_kind": per_ev,
         "cases_per_family": per_kind, "rejected_lines_all_known": nrej,
-        "samples": [by_kind["fwd"][len(by_kind["fwd"]) // 2], by_kind["rev"][3], by_kind["rw"][len(by_kind["rw"]) // 3],
-                    {"recorded_trace": sample_trace}],
+        "samples": [samples[k] for k in sorted(samples)] + [{"recorded_trace": sample_trace}],
         "rule": "TLC (AdaptorGen) enumerates: kind rw = EVERY sequence of 0..4 calls over %d calls (Header().Set/Add/Del on X-A, "
                 "Set-Cookie, Content-Type; WriteHeader(c); Write(p)) x {empty Response, Response that already has X-A x2, "
                 "Content-Type, Set-Cookie and a body} + %d seeded sequences of 5..9 calls over all 21 calls; kinds fwd (hertz -> "
@@ -325,7 +325,7 @@ def evidence(ctx, recs, n, nref, nrej, q):
                 "run on httptest.ResponseRecorder and that recording validated by the same specification.  Non-trivial rw case = "
                 "sends the header and (changes Header() or sends twice); non-trivial request = repeated header names, cookies, a "
                 "body, a failing body or a path other than / and /p; distinct = as a case record without its number."
-                % (10 if q else 21, sum(1 for c, _ in recs if c.get("fam") == "rand"), "" if q else "; thorough: the full products"),
+                % (10 if q else 21, nrand, "" if q else "; thorough: the full products"),
     })
     ctx.assumptions += [
         "what the hertz Response 'shows' is its serialized header (ResponseHeader.Header()) as net/http's http.ReadResponse "
